@@ -78,6 +78,15 @@ fn run(ctx: &RunCtx) {
         lua51_target: false,
     };
     common::run_behaviour(ctx, "programs", &spec);
+    // the same rules on Luau programs (type annotations and casts, compound assignment, continue,
+    // if-expressions, interpolated strings, `//`, const): the rules must leave those alone or carry
+    // them along unchanged
+    let mut luau = GenOpts::luau();
+    luau.focus = spec.opts.focus;
+    luau.avoid = spec.opts.avoid.clone();
+    luau.avoid.interp_tostring_order = false;
+    let luau_spec = BehaviourSpec { opts: luau, luau_layout: true, cases: spec.cases / 2, ..spec };
+    common::run_behaviour(ctx, "luau_programs", &luau_spec);
 }
 
 fn replay(v: &Value) -> Result<(), String> {
